@@ -112,11 +112,11 @@ fn main() {
             let sh = shard::parse_shard(&args);
             let cdir = format!("{corpus}/C08");
             if sh.is_some() || replay.is_some() || std::env::var("VERIF_NOSHARD").is_ok() {
-                faults::run(&tier, seed, replay.as_deref(), &cdir, sh)
+                faults::run(&tier, seed, replay.as_deref(), &cdir, sh, &drv)
             } else {
                 let mut rep = report::Report::new("c08", faults::rule());
                 let n = par::threads();
-                let pass: Vec<String> = vec!["--tier".into(), tier.clone(), "--seed".into(), seed.to_string(), "--corpus".into(), corpus.clone()];
+                let pass: Vec<String> = vec!["--tier".into(), tier.clone(), "--seed".into(), seed.to_string(), "--corpus".into(), corpus.clone(), "--drv".into(), drv.clone()];
                 let secs = if tier == "thorough" { 3000 } else { 500 };
                 shard::run_sharded(&mut rep, "c08", &pass, n, std::time::Duration::from_secs(secs), "c09:operation-hangs");
                 rep.rule = faults::rule().to_string();
